@@ -243,9 +243,15 @@ Definition check_C10_inst (sc : scenario) (ins : list (N * input)) (sent : list 
                                 | _ => false
                                 end) ins
           end in
+        (* an EARLIER lifetime whose stop window is still open when this one is stopped: its StopOffer leaves in the same
+           datagram as this lifetime's offers and cannot be told from this lifetime's own - silence is not judged here *)
+        let stop_before := existsb (fun iv2 => match snd iv2 with
+                                               | Some te2 => (te2 <=? ts) && (te <=? te2 + t_collect c) && negb ((fst iv2 =? ts) && (te2 =? te))
+                                               | None => false end) ivs in
         let c5 := match te_o with
                   | None => []
-                  | Some _ => (if existsb (fun x => negb (explained x)) late then [5] else [])
+                  | Some _ => if stop_before then [] else
+                              (if existsb (fun x => negb (explained x)) late then [5] else [])
                               ++ (if existsb explained late then [15] else [])
                   end in
         c1 ++ c2 ++ c3 ++ c5) ivs
@@ -300,6 +306,8 @@ Definition check_C12_inst (sc : scenario) (ins : list (N * input)) (sent : list 
                 if negb (memN i (l_announcing s)) then [] else
                 match matches_find svc e with
                 | Ok true =>
+                    (* a stop / start in the very instant of the request: which lifetime it met depends on their order *)
+                    if stop_api_at ins t || start_api_at ins t then [None] else
                     if ts + d0 =? t then [None] else
                     if t <? ts + d0 then [] else
                     (* still running when the answer is due? *)
